@@ -181,6 +181,8 @@ func (a *muxAnalysis) addObject(obj *mediaObj, into map[int][]decUnit, s *stream
 		}
 		return
 	}
+	var haveEnd, haveEmpty bool
+	var fragEnd, emptyBase int64
 	for fi, part := range obj.parts {
 		if len(part.Tracks) != 1 {
 			// every fMP4 stream of the muxer carries one track; a fragment without samples has none
@@ -192,6 +194,17 @@ func (a *muxAnalysis) addObject(obj *mediaObj, into map[int][]decUnit, s *stream
 		}
 		pt := part.Tracks[0]
 		dts := int64(pt.BaseTime)
+		// a fragment that declares the track without samples still has a base time: it lasts nothing, so it must
+		// sit exactly where the previous fragment of this object ended and where the next one begins
+		if haveEnd && len(pt.Samples) == 0 && dts != fragEnd {
+			a.fail("timestamp", "base-time-empty-fragment", "%s %s: fragment %d declares its track without samples at base time %d, the previous fragment ended at %d", obj.kind, obj.uri, fi, dts, fragEnd)
+			return
+		}
+		if haveEmpty && dts != emptyBase {
+			a.fail("timestamp", "base-time-empty-fragment", "%s %s: fragment %d has base time %d, the fragment without samples before it %d", obj.kind, obj.uri, fi, dts, emptyBase)
+			return
+		}
+		haveEmpty, emptyBase = len(pt.Samples) == 0, dts
 		for _, smp := range pt.Samples {
 			u := a.byPay[string(smp.Payload)]
 			if u == nil {
@@ -210,6 +223,7 @@ func (a *muxAnalysis) addObject(obj *mediaObj, into map[int][]decUnit, s *stream
 				dur: int64(smp.Duration), sync: !smp.IsNonSyncSample, hasDur: true})
 			dts += int64(smp.Duration)
 		}
+		haveEnd, fragEnd = true, dts
 	}
 }
 
